@@ -87,6 +87,43 @@ SELECTORS = [
 
 FORMS = ["text", "interpreted", "compiled", "recompiled"]
 
+# atoms for the seeded random compositions ({v} = a generator variable, made distinct per occurrence)
+ATOMS = [
+    ("r.n == 1", "cmp"), ("r.n > 1", "cmp"), ("r.s == 'a'", "cmp"), ("r.s != 'x'", "cmp"), ("r.m == 3", "missing"),
+    ("r.zz == 1", "missing"), ("r.s in ['a', 'x']", "in"), ("'x' in r.sl", "in"), ("r.n not in [0, 3]", "in"),
+    ("lower(r.s) == 'a'", "helper"), ("field_contains(r, ['s'], ['x'])", "helper"), ("has_field(r, 'other')", "helper"),
+    ("Type.string == 'x'", "type"), ("Type.varint > 1", "type"),
+    ("any({v} == 1 for {v} in r.il)", "gen"), ("all({v} != 'b' for {v} in r.sl)", "gen"), ("True", "const"),
+]
+
+
+def random_selectors(seed, k):
+    """k seeded compositions of the atoms with and / or / not (depth <= 3) -> [(text, shape label, 'both')]"""
+    rnd = random.Random("c10sel:%d" % seed)
+    out = []
+    for _ in range(k):
+        counter = [0]
+
+        def build(depth):
+            c = rnd.random()
+            if depth == 0 or c < 0.3:
+                t, cat = rnd.choice(ATOMS)
+                counter[0] += 1
+                return t.replace("{v}", "v%d" % counter[0]), cat
+            if c < 0.45:
+                t, sh = build(depth - 1)
+                return "not (%s)" % t, "not(%s)" % sh
+            op = rnd.choice(["and", "or"])
+            parts = [build(depth - 1) for _ in range(rnd.choice([2, 2, 3]))]
+            return "(" + (" %s " % op).join(t for t, _ in parts) + ")", "%s(%s)" % (op, ",".join(sh for _, sh in parts))
+        t, sh = build(3)
+        out.append((t, "rand:" + sh, "both"))
+    return out
+
+
+def selectors_for(ctx_seed, tier):
+    return SELECTORS + random_selectors(ctx_seed, 10 if tier == "quick" else 40)
+
 
 # ------------------------------------------------------------------------------------------
 # inputs
@@ -437,7 +474,7 @@ def replay_obj(p, text, form, res, seed, tier, extra=None):
 
 
 def n_sequences(tier):
-    return 3 if tier == "quick" else 15
+    return 3 if tier == "quick" else 20
 
 
 def impl_pass(ctx, reason=None, collect=True):
@@ -462,7 +499,7 @@ def impl_pass(ctx, reason=None, collect=True):
                 ctx.notes.append("input %s/%d: two unfiltered readings differ -- skipped" % (reader, idx))
                 continue
             exercised[reader] = exercised.get(reader, 0) + 1
-            for text, label, engines in SELECTORS:
+            for text, label, engines in selectors_for(ctx.seed, ctx.tier):
                 for form in forms_for(engines):
                     r = run_case(p, text, form, ctx.seed)
                     if r["problem"]:
@@ -529,7 +566,7 @@ def run(ctx):
         "values, list fields) plus arbitrary recgen records for the stream; %d selectors of the C07 grammar (comparisons, chained, "
         "and/or/not, in/not in, helper functions, typed matchers, any/all generator expressions incl. conditions and a reused "
         "variable, missing fields, constants, raising ones, walrus for the compiled engine) x forms text / Selector / "
-        "CompiledSelector / Selector recompiled by make_selector(force_compiled).  distinct = distinct (reader, selector shape, "
+        "CompiledSelector / Selector recompiled by make_selector(force_compiled); plus seeded random and/or/not compositions of atoms of each kind.  distinct = distinct (reader, selector shape, "
         "form); non-trivial = the selector keeps some and drops some records of the sequence, or raises" % len(SELECTORS))
     ok = core.standard_proof_stage(ctx, ["props/C10.vo"], "C10", THEOREMS, search_fn=search, gens=["gen_filter"])
     ctx.assumptions += [
